@@ -175,6 +175,8 @@ fn run_sequence<I: Idx>(ops: &[Op], keys: &[u8], st: &mut Stats) {
                let _ = (dl, tl);
                delta.unfreeze_();
                total.unfreeze_();
+               // a defensive unfreeze of an index that is not frozen (`new` never is) must leave it alone
+               new.unfreeze_();
                I::merge(&mut new, &mut delta, &mut total);
                model_merge(I::KIND, &mut mn, &mut md, &mut mt);
             },
@@ -188,6 +190,14 @@ fn run_sequence<I: Idx>(ops: &[Op], keys: &[u8], st: &mut Stats) {
          total.unfreeze_();
          total.freeze_();
          compare(&mut local, "total(after unfreeze+freeze)", &total, &mt, keys, &ctx);
+         // ... and both are idempotent: freezing a frozen index / unfreezing an unfrozen one changes nothing
+         total.freeze_();
+         delta.unfreeze_();
+         delta.unfreeze_();
+         delta.freeze_();
+         delta.freeze_();
+         compare(&mut local, "total(after a second freeze)", &total, &mt, keys, &ctx);
+         compare(&mut local, "delta(after double unfreeze, double freeze)", &delta, &md, keys, &ctx);
          // `new` is only written, never read by generated code, but after a merge it must be empty
          if let Op::Merge = op {
             new.freeze_();
